@@ -112,6 +112,7 @@ def agreement(ctx, p):
                 ctx.ob(p + 'b column-id-validated %s' % nm, 'K9-agreement', vb.path,
                        'the apply pass indexes self.columns with the column id of a %s record without a check, so the validation pass must bounds-check it (columns.get) in its %s arm' % (nm, nm),
                        w is None, '' if w is None else 'validation arm continues without a bounds check of the column id: ' + lib.short_path(vb, w), el.loc(uses_index[0]))
+    shared.old_table_records_skipped(ctx, p)
     # table validators bound what the appliers dereference
     for fn, fld in (('index::IndexTable::validate_plan', None), ('ref_count::RefCountTable::validate_plan', None)):
         b = ctx.body(fn)
